@@ -137,6 +137,13 @@ fn main() {
             }
             std::fs::write(&args[3], out).expect("write");
         }
+        "curate-sg-witnesses" => {
+            // corpus curation: for every entry of the space-group invariant table
+            // a known-euclidean witness (cover of a cover of the cubic / hexagonal
+            // prism tiling), found by computing invariant strings only
+            let code = selftest::curate_sg_witnesses(&args[2..]);
+            std::process::exit(code);
+        }
         "seam-selftest" => match entropy::selftest() {
             Ok(()) => println!("seam R ok: interposed getrandom controls RandomState"),
             Err(e) => {
